@@ -272,6 +272,82 @@ def run_valid(case, rec):
              sample=lambda: {'files': [(p, t[:400]) for p, t in specs[:1]], 'outcome': kind})
 
 
+# -- coverage-guided campaign (atheris / libFuzzer, tooling interpreter) -------------------------
+
+FUZZ_TARGET = os.path.join(os.path.dirname(os.path.dirname(os.path.abspath(__file__))), 'fuzz_frontend.py')
+FUZZ_PY = '/opt/veriftools/pyvenv/bin/python'
+_fuzz_dir = {}
+
+
+def fuzz_enum(ctx, slices, runs):
+    def enum(shard, nshards):
+        for i in range(slices):
+            yield {'fuzz_shard': shard, 'slice': i, 'last': i == slices - 1, 'runs': runs,
+                   'seed': core.derive_seed('C03', 'atheris', ctx.seed, shard) % (2 ** 31 - 1) + 1}
+    return enum
+
+
+@accepts_variants
+def run_fuzz(case, rec):
+    """One slice of one libFuzzer process; the corpus directory lives as long as the shard.  Even
+    shards start from an empty corpus, odd shards from the language reference's snippets."""
+    import json
+    import shutil
+    shard = case['fuzz_shard']
+    d = _fuzz_dir.get(shard)
+    if d is None:
+        d = _fuzz_dir[shard] = tempfile.mkdtemp(prefix='sv_c03_fuzz_')
+        os.makedirs(os.path.join(d, 'corpus'))
+        if shard % 2:
+            for i, b in enumerate(langref_snippets()):
+                text = b if b.lstrip().startswith('namespace') else 'namespace snippet\n\n' + b
+                with open(os.path.join(d, 'corpus', 'seed_%03d' % i), 'wb') as f:
+                    f.write(b'\x00' + text.encode('utf-8'))
+    out = os.path.join(d, 'out_%d' % case['slice'])
+    os.makedirs(out)
+    try:
+        pr = subprocess.run([FUZZ_PY, FUZZ_TARGET, out, REPO, '-runs=%d' % case['runs'],
+                             '-seed=%d' % (case['seed'] + case['slice']), '-max_len=400', '-timeout=60',
+                             '-max_total_time=300', '-print_final_stats=0', os.path.join(d, 'corpus')],
+                            capture_output=True, text=True, timeout=400,
+                            env=dict(os.environ, PYTHONPATH='', PYTHONHASHSEED='0'))
+        try:
+            with open(os.path.join(out, 'stats.json')) as f:
+                stats = json.load(f)
+        except (OSError, ValueError):
+            raise core.HarnessError('fuzz target produced no statistics (rc %s): %s' %
+                                    (pr.returncode, (pr.stderr or pr.stdout)[-400:]))
+        execs = stats.get('execs', 0)
+        for k in ('api', 'invalid', 'lexer_or_parser_rejected', 'escape', 'hang', 'past_parser',
+                  'token_mode', 'two_files'):
+            rec.note('atheris_' + k, stats.get(k, 0))
+        rec.note('atheris_execs', execs)
+        rec.note('atheris_corpus_files', len(os.listdir(os.path.join(d, 'corpus'))))
+        # executions count as evaluations; the non-trivial ones (got past the parser) are
+        # reported as a count only: their texts are not kept
+        rec.evaluations += execs
+        rec.classes['atheris:execs'] += execs
+        rec.classes['atheris:past_parser'] += stats.get('past_parser', 0)
+        for fn in sorted(os.listdir(out)):
+            if not fn.startswith('finding_'):
+                continue
+            with open(os.path.join(out, fn)) as f:
+                fd = json.load(f)
+            specs = [tuple(x) for x in fd['specs']]
+            # re-validate through the real specs_to_ir in this interpreter; the signature comes
+            # from here so that known findings and replays are shared with the other parts
+            kind, _ = judge(specs, rec)
+            rec.case(core.h64(repr(specs)), True, classes=['atheris:finding:' + kind],
+                     sample=lambda: {'files': specs[:2], 'outcome': kind, 'fuzzer_key': fd['key']})
+            if kind not in ('escape', 'hang') and fd['kind'] in ('escape', 'hang'):
+                rec.note('atheris_finding_not_reproduced_by_specs_to_ir')
+    finally:
+        shutil.rmtree(out, ignore_errors=True)
+        if case['last']:
+            shutil.rmtree(d, ignore_errors=True)
+            _fuzz_dir.pop(shard, None)
+
+
 def parts(ctx):
     ps = [
         Part('valid', run_valid, strategy=gen.frontend_cases(), n=ctx.n(800, 10000), reduce=reduce_case,
@@ -286,6 +362,10 @@ def parts(ctx):
     if not ctx.quick:
         ps.append(Part('short_core6', make_run_short(textmut.CORE_ALPHABET),
                        enumerate=short_enum(6, textmut.CORE_ALPHABET), exhaustive=True))
+        if os.path.exists(FUZZ_PY):
+            ps.append(Part('atheris', run_fuzz, enumerate=fuzz_enum(ctx, 4, 100000), reduce=reduce_case))
+        elif not any('atheris' in a for a in ASSUMPTIONS):
+            ASSUMPTIONS.append('atheris part skipped: %s is absent' % FUZZ_PY)
     from . import c01
     ps.append(Part('inject', accepts_variants(c01.run_inject_for_c03), strategy=c01.injected(), n=ctx.n(2500, 40000),
                    budget_s=ctx.n(100, 1200), reduce=reduce_case))
